@@ -1,6 +1,7 @@
 import WM.Model.FSReader
 import WM.Lemmas.FSReader
 import WM.Lemmas.FSInterleave
+import WM.Lemmas.FSRefreshRace
 import WM.Props.C02
 /-!
 C03 — readers are snapshots; new readers and `refresh()` see exactly the last commit.
@@ -203,6 +204,51 @@ theorem fresh_interleaved (eager : Name → Bool) (ix : Name) (old new : Toc) (t
       | nil => simp [assemble, Reader.leaves]
       | cons b l' => simp [assemble, Reader.leaves, List.flatMap_map]
 
+/-- **C03.refresh_interleaved.**  The same race for `Searcher.refresh()`: `old` (a reader of the TOC
+    `old`) is recycled by `ix.reader(reuse=old)`, whose steps — TOC read, per segment either taking
+    over the recycled sub-reader or opening the files one at a time, retry on a missing file with
+    the recycled reader intact — are interleaved arbitrarily with one protocol-following commit.
+    If the call completes, the result is exactly the fresh reader of `old` or of `new` at the
+    moment the TOC was read: no stale deletions, no stale handles, no mixture. -/
+theorem refresh_interleaved (eager : Name → Bool) (ix : Name) (old new : Toc) (tmp : Name) (fs0 : FS)
+    (n : Nat) (ms : List MStep) (hc : Consistent ix old fs0)
+    (hs : SafeCommitTrace ix old new tmp fs0 (wevents ms) = true)
+    (hst : Stable old old ∧ Stable old new)
+    (t : Toc) (r : Reader)
+    (hdone : (xmrun eager ix (freshReader eager fs0 old) (fs0, .start n) ms).2 = .done t r) :
+    (t = old ∨ t = new) ∧
+    ∃ k, k ≤ ms.length ∧ readToc ix (fsAt fs0 ms k) = .ok t ∧ readable (fsAt fs0 ms k) t = true ∧
+      r = freshReader eager (fsAt fs0 ms k) t := by
+  have hwf : WF fs0 := ⟨hc.support, hc.range, hc.inj⟩
+  have hfr : freshNames fs0 (wevents ms) = true :=
+    safe_freshNames ix old new (some tmp) ⟨fs0, .pre⟩ (wevents ms) hs
+  have hstate : ∀ k, ∃ j, fsAt fs0 ms k = run fs0 ((wevents ms).take j) := by
+    intro k
+    obtain ⟨j, hj⟩ := wevents_take_prefix ms k
+    exact ⟨j, by unfold fsAt; rw [hj]⟩
+  have hread : ∀ k t', readToc ix (fsAt fs0 ms k) = .ok t' →
+      (t' = old ∨ t' = new) ∧ readable (fsAt fs0 ms k) t' = true := by
+    intro k t' ht'
+    obtain ⟨j, hj⟩ := hstate k
+    obtain ⟨hw, hh⟩ := holds_at hc hs j
+    rw [hj] at ht' ⊢
+    obtain ⟨r1, r2⟩ := holds_readToc hw hh
+    rw [r1] at ht'
+    cases ht'
+    refine ⟨?_, r2⟩
+    unfold C02.stateAt
+    split
+    · exact Or.inr rfl
+    · exact Or.inl rfl
+  obtain ⟨k, hk, h1, h2, h3⟩ := refresh_linearizable eager ix fs0 old n ms hwf hc.readable hfr
+    (fun k _ t' ht' => (hread k t' ht').2)
+    (fun k _ t' ht' => by
+      rcases (hread k t' ht').1 with h | h
+      · rw [h]; exact hst.1
+      · rw [h]; exact hst.2)
+    t r hdone
+  exact ⟨(hread k t h1).1, k, hk, h1, h2, h3⟩
+
 /-- **C03.refresh_eq_fresh.**  `r` was opened on `fs0` (newest TOC `t0`); writers then issued any
     events that never re-bind a name, leaving `t` as the newest TOC, readable.  Then
     `Searcher.refresh()` (that is, `ix.reader(reuse=r)` unless `r` is up to date) yields exactly
@@ -307,6 +353,24 @@ theorem refresh_eq_fresh (eager : Name → Bool) (ix : Name) (fs0 : FS) (t0 t : 
     obtain ⟨closed, hcl⟩ := indexReader_reuse eager ix _ t _ ht hr hco
     rw [hcl]
 
+/-- **C03.same_is_fresh.**  The "return self" outcome of `Searcher.refresh()` (see
+    `FS.searcher_refresh_linearizable` for when it is taken under interleaving): a searcher that is
+    up to date *is* the freshly opened one. -/
+theorem same_is_fresh (eager : Name → Bool) (ix : Name) (fs0 : FS) (t0 t : Toc)
+    (tr : List Event) (hwf : WF fs0) (h0 : readable fs0 t0 = true) (hfr : freshNames fs0 tr = true)
+    (ht : readToc ix (run fs0 tr) = .ok t) (hr : readable (run fs0 tr) t = true)
+    (hfiles : ∀ s0 ∈ t0.segs, ∀ s ∈ t.segs, s.sid = s0.sid → s0.files = s.files)
+    (hcanon : ∀ s0 ∈ t0.segs, ∀ s ∈ t.segs, s.sid = s0.sid →
+      sameSet s0.deleted s.deleted = true → s0.deleted = s.deleted)
+    (hgen : t.gen = t0.gen → t = t0)
+    (hup : upToDate ix (run fs0 tr) (freshReader eager fs0 t0) = true) :
+    freshReader eager fs0 t0 = freshReader eager (run fs0 tr) t := by
+  have h := refresh_eq_fresh eager ix fs0 t0 t tr hwf h0 hfr ht hr hfiles hcanon hgen
+  rw [openReader_fresh eager ix _ t ht hr] at h
+  unfold refresh at h
+  rw [if_pos hup] at h
+  exact Except.ok.inj h
+
 /-- **C03.up_to_date (partial: indexes with at least one segment).**  For the reader opened on
     TOC `t0`, `up_to_date()` is true exactly when the newest generation in the directory is still
     `t0.gen`. -/
@@ -376,6 +440,19 @@ def doneOn : ROpen → Option (Nat × List Name)
 
 example : SafeCommitTrace ix tocNew toc2 tmp2 fs1 (wevents race) = true := by decide
 example : doneOn (mrun (fun _ => true) ix (fs1, .start 10) race).2 = some (2, [seg2]) := by decide
+/-- `held.refresh()` racing the same commit: it reads TOC 1 (nothing to do: its own segment is
+    recycled) when scheduled first, and ends on the fresh reader of generation 2 when the commit
+    lands before its TOC read -/
+def doneReader : RRefresh → Option (Nat × Reader)
+  | .done t r => some (t.gen, r)
+  | _ => none
+
+example : doneReader (xmrun (fun _ => true) ix held (fs1, .start 10)
+    ([.r, .r] ++ tr2.map .w ++ [.r])).2 = some (1, held) := by decide
+example : doneReader (xmrun (fun _ => true) ix held (fs1, .start 10)
+    (tr2.map .w ++ [.r, .r, .r, .r, .r])).2
+    = some (2, freshReader (fun _ => true) (run fs1 tr2) toc2) := by decide
+
 /-- the same reader scheduled before the clean-up stays on generation 1 -/
 example : doneOn (mrun (fun _ => true) ix (fs1, .start 10)
     ([.r, .r] ++ tr2.map .w ++ [.r])).2 = some (1, [segFile]) := by decide
